@@ -169,10 +169,14 @@ class BaseNode(Node):
     def _raw_from_value(self, value):
         """ Express a current value as a raw value
         """
+        if isinstance(value, Type):        # casting wraps booleans into a type object
+            value = value.value
         if isinstance(value, (list, np.ndarray)):
             return json.dumps(np.asarray(value).tolist())
         elif isinstance(value, (bool, np.bool_)):
             return Keyword.TRUE if value else Keyword.FALSE
+        elif self.keyword=='int' and not isinstance(value, str) and value==int(value):
+            return str(int(value))         # a unit conversion leaves a float such as 7000.0 in an integer node
         else:
             return str(value)
 
